@@ -195,6 +195,8 @@ def _build(d):
         ignore = [s['name'] for s in sheets[1:] if d.pick(2)]
     # the collection type in which the ignored sheets are handed over
     return {'sheets': sheets, 'names': wbnames, 'ignore': ignore,
+            # the workbook may use the 1904 date system (workbookPr)
+            'd1904': d.pick(5) == 0,
             'igtype': d.choice(['list', 'list', 'tuple', 'set',
                                 'frozenset'])}
 
@@ -235,6 +237,9 @@ def budget(tier):
 
 # ------------------------------------------------------------------- judge
 
+EPOCH = [datetime.datetime(1899, 12, 30)]      # per case (1904 system)
+
+
 def const_tag(c):
     k = c['kind']
     if k == 'empty':
@@ -246,7 +251,7 @@ def const_tag(c):
     if k == 'b':
         return ('B', bool(c['v']))
     if k == 'date':
-        return ('D', (datetime.datetime(1899, 12, 30) + datetime.timedelta(
+        return ('D', (EPOCH[0] + datetime.timedelta(
             days=c['v'])).isoformat())
     return None
 
@@ -270,6 +275,15 @@ def squash(f):
 
 
 def judge(case):
+    EPOCH[0] = (datetime.datetime(1904, 1, 1) if case.get('d1904')
+                else datetime.datetime(1899, 12, 30))
+    try:
+        return _judge(case)
+    finally:
+        EPOCH[0] = datetime.datetime(1899, 12, 30)
+
+
+def _judge(case):
     res = Result()
     xl = lib.lib()
     sheets, wbnames, ignore = case['sheets'], case['names'], case['ignore']
@@ -278,7 +292,8 @@ def judge(case):
         a: {k: v for k, v in c.items() if k != 'expect'}
         for a, c in s['cells'].items()}} for s in sheets],
         'names': [{'name': n['name'], 'ref': n['ref']} for n in wbnames
-                  if n['sheet'] not in ignore]}
+                  if n['sheet'] not in ignore],
+        'date1904': bool(case.get('d1904'))}
     kinds = {c['kind'] for s in sheets for c in s['cells'].values()}
     shared = any(k.startswith('shared') for k in kinds)
     res.labels = ('sheets:%d' % len(sheets),) + (
@@ -405,8 +420,8 @@ def judge(case):
             continue
         else:
             d[a] = 0
-            presets[a] = (c['v'] if k != 'date' else datetime.datetime(
-                1899, 12, 30) + datetime.timedelta(days=c['v']))
+            presets[a] = (c['v'] if k != 'date' else EPOCH[0] +
+                          datetime.timedelta(days=c['v']))
     try:
         m2 = xl.ModelCompiler().read_and_parse_dict(
             d, default_sheet=sheets[0]['name'])
